@@ -31,3 +31,8 @@ VARIANTS = [
     v("c19-twin-jj", "if jj >= 0 and (ii - jj) == n:", "if ii >= n:", expect="silent"),
     v("c19-twin-neg", "            if end_ix == -1:\n", "            if end_ix < 0:\n", expect="silent"),
 ]
+
+VARIANTS += [
+    v("c19-begin-truthy", "        if begin is not None:\n            try:", "        if begin:\n            try:", note="label 0 of a numeric axis is treated as not given"),
+    v("c19-end-truthy", "        if end is not None:\n            try:", "        if end:\n            try:"),
+]
